@@ -477,13 +477,67 @@ def rule_bm(repo: Repo, rep: Report) -> int:
     return n + 1
 
 
+def hamming_position_evaluated(sp: FuncInfo):
+    """_syndrome_to_error_position tabulated (own arithmetic): for the (7,4) and (15,11) Hamming codes laid out for the
+    'left', the 'right' and two index-list information sets, the syndrome H[:, j] must give position j for every j, the
+    zero syndrome must give no position (n)."""
+    import itertools
+
+    from ..constfold import Unfoldable
+    from ..frag import FragRaise, FragReturn, run_fragment
+
+    count = 0
+    for mu in (3, 4):
+        nn = 2**mu - 1
+        k = nn - mu
+        rows = [list(t_) for t_ in itertools.product((0, 1), repeat=mu) if sum(t_) >= 2][:k]
+        layouts = [list(range(k)), list(range(nn - k, nn)), [(3 * i + 1) % nn for i in range(k)]]
+        layouts.append(sorted(layouts[2], reverse=True))
+        for info in layouts:
+            if len(set(info)) != k:
+                continue
+            par = [j for j in range(nn) if j not in info]
+            H = [[0] * nn for _ in range(mu)]
+            for i, pos in enumerate(info):
+                for r_ in range(mu):
+                    H[r_][pos] = rows[i][r_]
+            for j, pos in enumerate(par):
+                H[j][pos] = 1
+            attrs = {"self.check_matrix": [[float(x) for x in r_] for r_ in H], "self.code_length": nn, "self._length": nn, "self._dimension": k, "self.code_dimension": k, "self._redundancy": mu, "self.redundancy": mu, "self.parity_submatrix": [[float(x) for x in r_] for r_ in rows], "self.information_set": list(info), "self._information_set": list(info), "self.parity_set": list(par), "self._parity_set": list(par), "self.mu": mu, "self._mu": mu, "self.extended": False}
+            for j in list(range(nn)) + [None]:
+                syn = [float(H[r_][j]) for r_ in range(mu)] if j is not None else [0.0] * mu
+                try:
+                    run_fragment(sp.body, {sp.params[-1]: syn}, attrs, max_steps=100000, materialise=True)
+                    return None, "no value returned"
+                except FragReturn as ret:
+                    got = ret.value
+                except (Unfoldable, FragRaise, TypeError, IndexError, ValueError) as exc:
+                    return None, str(exc)
+                if isinstance(got, list) and len(got) == 1:
+                    got = got[0]
+                if isinstance(got, float) and got == int(got):
+                    got = int(got)
+                want = j if j is not None else nn
+                if got != want:
+                    return VIOLATION, f"({nn},{k}) Hamming code with information set {info}: the syndrome {[int(x) for x in syn]} is column {j} of the published H, so a single error there must be located at position {want}; the function returns {got!r} (a clean information bit is flipped instead of the corrupted one)" if j is not None else f"({nn},{k}) Hamming code: the zero syndrome is answered with position {got!r} instead of 'no error' ({nn})"
+                count += 1
+    return OK, f"position j for the syndrome H[:, j], n for the zero syndrome, on {count} (code, layout, column) cases"
+
+
 def rule_hamming(repo: Repo, rep: Report) -> int:
     ci = repo.cls(HAM, "HammingCodeEncoder")
     sp = repo.method(ci, "_syndrome_to_error_position")
     body = statement_texts(sp)
     loops = [s for s in sp.body if isinstance(s, ast.For)]
     ok = "H = self.check_matrix" in body and bool(loops) and unparse(loops[0].iter) == "range(self.code_length)" and "col = H[:, j].float()" in body and any(isinstance(s, ast.If) and unparse(s.test) == "torch.equal(col, syn)" for s in stmts_of(sp.body)) and any(unparse(r.value) == "j" for r in returns_of(sp.node)) and any(unparse(r.value) == "self.code_length" for r in returns_of(sp.node))
-    rep.expect(ok, "HAMMING", sp, "error position = index j of the check-matrix column equal to the syndrome (n if none)", "a single error at position j has syndrome H[:, j]: the published H decides", "syndrome -> position map changed")
+    if not ok:
+        est, edetail = hamming_position_evaluated(sp)
+        if est is None:
+            rep.undecided("HAMMING", sp, "error position = index j of the check-matrix column equal to the syndrome (n if none)", f"code shape not recognised and not evaluable ({edetail})")
+        else:
+            rep.add("HAMMING", sp, "_syndrome_to_error_position tabulated over all columns of H for left / right / index-list information sets", est, edetail, node=sp.node)
+    else:
+        rep.ok("HAMMING", sp, "error position = index j of the check-matrix column equal to the syndrome (n if none)", "a single error at position j has syndrome H[:, j]: the published H decides")
     inv = repo.method(ci, "inverse_encode")
     body = statement_texts(inv)
     ok = "y_reshaped[i, p] = 1 - y_reshaped[i, p]" in body and "valid_errors = error_positions < self.code_length" in body and any(b.startswith("error_positions = torch.tensor([self._syndrome_to_error_position(s) for s in syndrome_reshaped]") for b in body) and "syndrome = self.calculate_syndrome(y)" in body
